@@ -194,10 +194,19 @@ SESSION_FILES = {
 }
 
 
-def run_session_orders(_):
+# one file in which create needs the HasRepr import and fix the external import (finding F-49: the import lines end up in run order)
+IMPORT_FILES = {
+    "test_i.py": "from inline_snapshot import snapshot, outsource\n\n\nclass W:\n    def __repr__(self):\n        return '<W>'\n\n    def __eq__(self, o):\n"
+                 "        return True if isinstance(o, W) else NotImplemented\n\n\nR = []\n\n\ndef test_i1():\n    R.append(W() == snapshot())\n\n\n"
+                 "def test_i2():\n    R.append(outsource('x' * 40) == snapshot('old'))\n",
+}
+
+
+def run_session_orders(_, files=None, P=("create", "fix", "trim", "update"), norders=7):
     """the categories pending in a project of three files approved together in one real pytest session vs one session per
     category in every order"""
     import shutil
+    SESSION_FILES = files or globals()["SESSION_FILES"]
 
     def sessions(seq):
         d = driver.scratch_dir()
@@ -210,13 +219,18 @@ def run_session_orders(_):
             return {n: ast.dump(ast.parse((d / n).read_text())) for n in SESSION_FILES}
         finally:
             shutil.rmtree(d, ignore_errors=True)
-    P = ("create", "fix", "trim", "update")
     orders = [tuple(o) for o in itertools.permutations(P)]
     random.Random(7).shuffle(orders)
-    seqs = [[P]] + [[(c,) for c in o] for o in orders[:7]]
+    seqs = [[P]] + [[(c,) for c in o] for o in orders[:norders]]
     from ..core import tmap
     res = tmap(sessions, seqs)
-    return {"together": res[0], "orders": list(zip(orders[:7], res[1:]))}
+    return {"together": res[0], "orders": list(zip(orders[:norders], res[1:]))}
+
+
+def _without_imports(dump):
+    """ast.dump of a module with the `from inline_snapshot import ...` statements removed"""
+    import re
+    return re.sub(r"ImportFrom\(module='inline_snapshot', names=\[alias\(name='(HasRepr|external)'\)\], level=0\),? ?", "", dump)
 
 
 def run(ctx: Ctx):
@@ -279,6 +293,19 @@ def run(ctx: Ctx):
             diff = [n for n in r if r[n] != so["together"].get(n)]
             ctx.report(f"C09 oracle: real sessions over three files: approving {order} one session at a time differs from one session with all of them in {diff}", {"kind": "sessions", "order": order})
     ctx.coverage["oracle"]["multi_file_session_orders"] = len(so["orders"])
+    # D2: both import lines needed, by different categories
+    si = run_session_orders(None, IMPORT_FILES, ("create", "fix"), 2)
+    ctx.count(("sessions-imports",), True, n=3)
+    if "error" in si["together"]:
+        ctx.report("C09 (sessions, imports): " + si["together"]["error"], {"kind": "sessions-imports"})
+    for order, r in si["orders"]:
+        if "error" in r:
+            ctx.report("C09 (sessions, imports): " + r["error"], {"kind": "sessions-imports"})
+        elif r != si["together"]:
+            only_imports = all(_without_imports(r[n]) == _without_imports(si["together"][n]) for n in r)
+            ctx.report(f"C09 oracle: create needs `HasRepr`, fix needs `external`: approving {order} one session at a time gives another program than one session with both "
+                       f"({'the inserted import lines are in another order' if only_imports else 'more than the import lines differs'})",
+                       {"kind": "sessions-imports", "order": order}, tag="F-49" if only_imports else None)
     ctx.coverage["oracle"]["programs_with_two_or_more_pending_categories"] = k2
     ctx.coverage["oracle"]["orders_checked"] = sum(o.get("orders", 0) for o in outs)
     i = next((i for i, o in enumerate(outs) if len(o.get("pending", [])) >= 2), 0)
@@ -296,6 +323,9 @@ def replay(ctx: Ctx, data):
     if c.get("kind") in ("dict", "dict-orders"):
         from .. import dictassign as da
         return da.replay_case(c)
+    if c.get("kind") == "sessions-imports":
+        si = run_session_orders(None, IMPORT_FILES, ("create", "fix"), 2)
+        return "error" not in si["together"] and all("error" not in r and r == si["together"] for _, r in si["orders"])
     if c.get("kind") == "sessions":
         so = run_session_orders(None)
         return "error" not in so["together"] and all("error" not in r and r == so["together"] for _, r in so["orders"])
